@@ -1,4 +1,5 @@
 import SakuraVerif.Gen.Consts
+import SakuraVerif.Lemmas.LexUnknown
 /-! # C19 — errors carry the right line, never derail the music, and the log stays bounded
 
 Model of the logging primitives of `song.rs` / `lexer.rs` (`Song::add_log`, `get_logs_str`,
@@ -8,7 +9,10 @@ Model of the logging primitives of `song.rs` / `lexer.rs` (`Song::add_log`, `get
 * the log text is cut at 4096 characters plus `...`;
 * no `println!` outside an `if …debug` / `flag_stdout` guard exists in the library (frame fact,
   regenerated on every run): with debug off nothing is written to standard output;
-* `get_token_ch` / line counting: the line of a position is the number of `\n` before it. -/
+* `get_token_ch` / line counting: the line of a position is the number of `\n` before it;
+* on the literal lexer model (`Model.Lexer`, tied by the `lexer` stream): an unknown character written between two programs of the
+  block language costs exactly one error entry — its line, the character, the text after it — and the tokens are those of the
+  two programs written one after the other (`C19_unknown_char_skipped`). -/
 namespace Sakura.Props.C19
 open Sakura
 
@@ -107,5 +111,33 @@ theorem C19_line_no_break (a : List Nat) (h : ∀ c ∈ a, c ≠ 10) : lineOf a 
 -- non-vacuity
 example : ((List.replicate 150 "x").foldl addLog []).length ≤ 100 := C19_log_bounded _
 example : addLog ["a"] "b" = ["a", "b"] := by decide
+
+/-- **compilation continues as if only the offending character were absent**: for every two programs of the block language (notes,
+    rests, setters, loops, chords, `Sub{…}`, tuplets, nested to any depth) and every character that starts no command, lexing
+    `program₁ ‹c› program₂` gives the token list of `program₁ program₂` and exactly one error entry: the line (0 — canonical texts
+    have no line break), the half-width form of the character, and the eight characters that follow it -/
+theorem C19_unknown_char_skipped (cs1 cs2 : List Core.Cmd) (hw1 : Lp.pwfL2 cs1) (hw2 : Lp.pwfL2 cs2) (c : Nat)
+    (hc : Lp.UnknownCh (Sut.zen2han c)) (hs : Lp.Start c) :
+    Lx.lex 96 (Lp.printKL2 cs1 (c :: Lp.printKL2 cs2 [])) 0
+      = some ⟨Ex2.compileL (cs1 ++ cs2), [⟨0, [Sut.zen2han c], (Lp.printKL2 cs2 []).take 8⟩]⟩ :=
+  Lp.lex_unknown_between cs1 cs2 hw1 hw2 c hc hs
+
+/-- one step of the lexer at such a character, from any state of the loop (any line, inside or outside a chord) -/
+theorem C19_unknown_char_step (tb : Int) (f c : Nat) (cs : List Nat) (ln : Int) (harm : Bool) (h : Lp.UnknownCh (Sut.zen2han c)) :
+    Lx.lexLoop tb (f + 1) (c :: cs) ln harm = Lp.addErr ⟨ln, [Sut.zen2han c], cs.take 8⟩ (Lx.lexLoop tb f cs ln harm) :=
+  Lp.lex_unknown tb f c cs ln harm h
+
+-- non-vacuity: `!`, `=`, `~`, `あ`, `漢`, an emoji and full-width `！` are such characters
+example : ∀ c ∈ [33, 61, 126, 0x3042, 0x6F22, 0x1F600, 0xFF01], Lp.UnknownCh (Sut.zen2han c) ∧ Lp.Start c := by
+  intro c hc
+  simp only [List.mem_cons, List.not_mem_nil, or_false] at hc
+  rcases hc with rfl | rfl | rfl | rfl | rfl | rfl | rfl
+  · exact ⟨by unfold Lp.UnknownCh; rw [show Sut.zen2han 33 = 33 from by decide]; omega, by unfold Lp.Start; decide⟩
+  · exact ⟨by unfold Lp.UnknownCh; rw [show Sut.zen2han 61 = 61 from by decide]; omega, by unfold Lp.Start; decide⟩
+  · exact ⟨by unfold Lp.UnknownCh; rw [show Sut.zen2han 126 = 126 from by decide]; omega, by unfold Lp.Start; decide⟩
+  · exact ⟨by unfold Lp.UnknownCh; rw [show Sut.zen2han 0x3042 = 0x3042 from by decide]; omega, by unfold Lp.Start; decide⟩
+  · exact ⟨by unfold Lp.UnknownCh; rw [show Sut.zen2han 0x6F22 = 0x6F22 from by decide]; omega, by unfold Lp.Start; decide⟩
+  · exact ⟨by unfold Lp.UnknownCh; rw [show Sut.zen2han 0x1F600 = 0x1F600 from by decide]; omega, by unfold Lp.Start; decide⟩
+  · exact ⟨by unfold Lp.UnknownCh; rw [show Sut.zen2han 0xFF01 = 33 from by decide]; omega, by unfold Lp.Start; decide⟩
 
 end Sakura.Props.C19
